@@ -2755,4 +2755,402 @@ Qed.
 
 End Heart.
 
+Lemma SInv_leaf s n :
+  g_producer g n = None -> n_known (nd s n) = false -> SInv s ->
+  let s1 := stat_if_necessary w s n in
+  let s' := set_dirty s1 n (negb (n_exists (nd s1 n))) in
+  SInv s' /\ vrel s s' /\ node_final s' n.
+Proof.
+  intros Hp Hk [S1 [S2 S3]] s1 s'.
+  assert (E : st_edge s' = st_edge s) by (subst s' s1; cbn [set_dirty upd_node st_edge]; apply st_edge_stat_if_necessary).
+  assert (O : forall n', n' <> n -> nd s' n' = nd s n').
+  { intros n' Hne. subst s' s1. unfold set_dirty. rewrite upd_node_other by exact Hne. apply stat_other; exact Hne. }
+  assert (Hn : nd s' n = mkN (Z.eqb (w_mtime w n) 0) (w_mtime w n)
+                            (if Z.eqb (w_mtime w n) 0 then ExMissing else ExExists)).
+  { subst s' s1. unfold set_dirty. rewrite upd_node_same. unfold stat_if_necessary. rewrite Hk.
+    rewrite upd_node_same. cbn [ns_mtime ns_exists n_exists]. destruct (Z.eqb (w_mtime w n) 0); reflexivity. }
+  split; [|split].
+  - split; [|split].
+    + intros n' Hf. destruct (Nat.eq_dec n' n) as [->|Hne].
+      * unfold node_ok. rewrite Hn. cbn [ns_dirty ns_mtime]. split.
+        -- rewrite Z.eqb_eq. split; [intros Hz; apply md_leaf; assumption|intros Hmd; apply must_dirty_leaf_inv; assumption].
+        -- intros Hd x. apply Z.eqb_neq in Hd. symmetry. apply newer_file. exact Hd.
+      * apply (node_ok_eq s s' n' (O n' Hne)). apply S1. unfold node_final in *. rewrite E in Hf. rewrite <- (O n' Hne). exact Hf.
+    + intros n' e Hpe Hm. assert (Hne : n' <> n) by (intros ->; congruence).
+      rewrite (O n' Hne). apply (S2 n' e Hpe). rewrite <- E. exact Hm.
+    + intros e Hm. rewrite E in *. apply S3. exact Hm.
+  - split; [apply ext_of_edge_eq; exact E|]. intros n' Hs. apply O. intros ->.
+    unfold settled in Hs. rewrite Hp in Hs. congruence.
+  - unfold node_final. rewrite Hp, Hn. unfold n_known. cbn [ns_exists]. destruct (Z.eqb _ _); reflexivity.
+Qed.
+
+Lemma rnd_spec : forall f stack n s vs s' vs',
+  rnd f stack n (s, vs) = SOk (s', vs') -> SInv s -> SInv s' /\ vrel s s' /\ node_final s' n.
+Proof.
+  induction f as [|f IH]; intros stack n s vs s' vs' H HS; [discriminate|].
+  destruct (g_producer g n) as [e|] eqn:Hp.
+  2:{ cbn [recompute_node_dirty] in H. rewrite Hp in H.
+      destruct (n_known (nd s n)) eqn:Hk; inversion H; subst s' vs'.
+      - split; [exact HS|]. split; [apply vrel_refl|]. unfold node_final. rewrite Hp. exact Hk.
+      - apply (SInv_leaf s n Hp Hk HS). }
+  destruct (mark_of s e) eqn:Hm.
+  2:{ cbn [recompute_node_dirty] in H. rewrite Hp, Hm in H. discriminate. }
+  2:{ cbn [recompute_node_dirty] in H. rewrite Hp, Hm in H. inversion H; subst s' vs'.
+      split; [exact HS|]. split; [apply vrel_refl|]. unfold node_final. rewrite Hp. exact Hm. }
+  destruct (rnd_ok g w _ _ _ _ _ _ _ H) as [Eext [_ Ddone]].
+  rewrite (rnd_none_unfold g w f stack n e s vs Hp Hm) in H.
+  destruct HS as [S1 [S2 S3]]. destruct (S3 e Hm) as [Hdl Hins]. rewrite Hdl in H.
+  destruct (s2_props g w e s) as [A2 [M2 I2]].
+  set (s2 := stat_outputs w (enter_edge s e) (edge_outs g e)) in *.
+  assert (LS2 : lstep e s s2).
+  { split; [exact A2|]. intros n' Hn'. subst s2. rewrite stat_outputs_other by exact Hn'. reflexivity. }
+  assert (HS2 : SInv s2).
+  { apply (SInv_lstep e s s2 (conj S1 (conj S2 S3)) LS2); [rewrite Hm; discriminate|exact M2]. }
+  assert (T2 : forall o, In o (edge_outs g e) -> statted s2 o).
+  { intros o Ho. subst s2. apply stat_outputs_statted; [exact Ho|].
+    intros o' Ho'. left. change (nd (enter_edge s e) o') with (nd s o').
+    apply (S2 o' e (wf_out_prod e o' Ho') Hm). }
+  set (visit := rnd f (stack ++ [n])) in *.
+  assert (Hvisit : forall i sa va sb vb, visit i (sa, va) = SOk (sb, vb) -> SInv sa ->
+                                        SInv sb /\ vrel sa sb /\ node_final sb i).
+  { intros i sa va sb vb Hv Ha. apply (IH _ _ _ _ _ _ Hv Ha). }
+  destruct (visit_all visit (ins_of s2 e) (s2, vs ++ ei_vals (g_edge g e))) as [[s3 vs3]|c|e'|] eqn:V1;
+    try discriminate.
+  destruct (visit_all_spec visit Hvisit _ _ _ _ _ V1 HS2) as [HS3 [V23 F3]].
+  assert (E23 : st_edge s3 e = st_edge s2 e) by (apply (ext_marked s2 s3 e (proj1 V23)); rewrite M2; discriminate).
+  assert (M3 : mark_of s3 e = VisitInStack) by (rewrite E23; exact M2).
+  assert (I3 : ins_of s3 e = ei_ins (g_edge g e)) by (rewrite E23, I2; exact Hins).
+  assert (T3 : forall o, In o (edge_outs g e) -> statted s3 o).
+  { intros o Ho. unfold statted. rewrite (proj2 V23 o); [apply T2; exact Ho|].
+    unfold settled. rewrite (wf_out_prod e o Ho), M2. discriminate. }
+  rewrite I2, Hins in F3.
+  destruct (after_inputs_spec visit Hvisit e s3 vs3 s' vs' H HS3 M3 I3 F3 T3) as [HS' K3'].
+  split; [exact HS'|]. split.
+  - split; [exact Eext|]. intros n' Hs.
+    assert (Hno : ~ In n' (edge_outs g e)).
+    { intros Hin. unfold settled in Hs. rewrite (wf_out_prod e n' Hin) in Hs. congruence. }
+    destruct (krel_lstep e s s2 LS2 n' Hs Hno) as [E2 St2].
+    pose proof (proj2 V23 n' St2) as E3. pose proof (settled_vrel s2 s3 n' V23 St2) as St3.
+    destruct (K3' n' St3 Hno) as [E4 _]. congruence.
+  - unfold node_final. rewrite Hp. apply (Ddone e Hp).
+Qed.
+
+(* ---- top level *)
+Lemma loop_spec : forall qf queue s found s' vs',
+  recompute_dirty_loop g w qf queue s found = SOk (s', vs') -> SInv s -> SInv s'.
+Proof.
+  induction qf as [|qf IH]; intros queue s found s' vs' H HS; destruct queue as [|n queue];
+    cbn [recompute_dirty_loop] in H; try discriminate.
+  - inversion H; subst; exact HS.
+  - inversion H; subst; exact HS.
+  - destruct (rnd (scan_fuel g) [] n (s, [])) as [[s1 newv]|c|e|] eqn:Hv; try discriminate.
+    apply (IH _ _ _ _ _ H). apply (rnd_spec _ _ _ _ _ _ _ Hv HS).
+Qed.
+
+Lemma add_targets_spec : forall targets s p s' p',
+  add_targets g w s p targets = ScanOk s' p' -> SInv s -> Inv g w [] s -> SInv s' /\ Inv g w [] s'.
+Proof.
+  induction targets as [|t targets IH]; intros s p s' p' H HS HI; cbn [add_targets] in H.
+  - inversion H; subst. split; assumption.
+  - pose proof (bat_result g w s p t) as Hb.
+    destruct (builder_add_target g w s p t) as [c|m d|e| |s1 p1]; try discriminate.
+    destruct Hb as [vn Hb]. apply (IH _ _ _ _ H).
+    + apply (loop_spec _ _ _ _ _ _ Hb HS).
+    + apply (loop_Inv g w _ _ _ _ _ _ Hb HI).
+Qed.
+
+Lemma SInv_init : SInv (init_state g).
+Proof.
+  split; [|split].
+  - intros n Hf. unfold node_final in Hf. destruct (g_producer g n); cbn in Hf; discriminate.
+  - intros n e _ _. reflexivity.
+  - intros e _. split; reflexivity.
+Qed.
+
+(* scan_dirty_spec: after an accepted scan, for every node the scan has looked at (a source
+   that was stat'ed, an output of a statement that was visited) the dirty flag is exactly the
+   declarative [must_dirty], and a clean node's mtime is exactly what [newer_than] says *)
+Theorem scan_dirty_spec targets s p :
+  scan g w targets = ScanOk s p ->
+  forall n, n_known (nd s n) = true ->
+    (ns_dirty (nd s n) = true <-> must_dirty g w n) /\
+    (ns_dirty (nd s n) = false -> forall x, x < ns_mtime (nd s n) <-> newer_than g w x n).
+Proof.
+  intros H n Hk.
+  destruct (add_targets_spec _ _ _ _ _ H SInv_init (Inv_init g w)) as [[S1 [S2 S3]] [I1 _]].
+  apply S1. unfold node_final. destruct (g_producer g n) as [e|] eqn:Hp; [|exact Hk].
+  destruct (mark_of s e) eqn:Hm; [| |reflexivity].
+  - rewrite (S2 n e Hp Hm) in Hk. discriminate.
+  - destruct (I1 e Hm) as [x [[] _]].
+Qed.
+
 End SpecProofs.
+
+(* ================================================================== Part 6: C03 / C10 facts *)
+Local Open Scope Z_scope.
+
+(* ---- (a) only the mtimes of order-only sources change *)
+Definition worlds_agree_except (X : node -> Prop) (w w' : world) : Prop :=
+  (forall n, ~ X n -> w_mtime w n = w_mtime w' n) /\
+  (forall n, w_blog w n = w_blog w' n) /\
+  (forall n, w_dlog w n = w_dlog w' n) /\
+  (forall e, w_depfile w e = w_depfile w' e).
+
+(* X: sources (no producer) that exist and are neither a non-order-only manifest input nor a
+   usable recorded dep of any statement *)
+Definition order_only_sources (g : graph) (w : world) (X : node -> Prop) : Prop :=
+  forall x, X x -> g_producer g x = None /\ w_mtime w x <> 0 /\ forall e, ~ In x (spec_ins g w e).
+
+Section OrderOnly.
+Variables (g : graph) (w w' : world) (X : node -> Prop).
+Hypothesis Hout : forall e o, In o (ei_outs (g_edge g e)) -> g_producer g o = Some e.
+Hypothesis Hag : worlds_agree_except X w w'.
+Hypothesis HX : order_only_sources g w X.
+Hypothesis HX' : order_only_sources g w' X.
+
+Lemma out_not_X e o : In o (ei_outs (g_edge g e)) -> ~ X o.
+Proof. intros Ho Hx. destruct (HX o Hx) as [Hp _]. rewrite (Hout e o Ho) in Hp. discriminate. Qed.
+
+Lemma spec_load_agree e : spec_load g w e = spec_load g w' e.
+Proof.
+  destruct Hag as [Hm [_ [Hd Hf]]]. unfold spec_load.
+  destruct (ei_deps (g_edge g e)); [reflexivity| |].
+  - destruct (ei_outs (g_edge g e)) as [|o0 outs]; [reflexivity|]. rewrite (Hf e). reflexivity.
+  - destruct (ei_outs (g_edge g e)) as [|o0 outs] eqn:Ho; [reflexivity|].
+    rewrite (Hd o0). rewrite (Hm o0); [reflexivity|].
+    apply (out_not_X e). rewrite Ho. left; reflexivity.
+Qed.
+
+Lemma spec_ins_agree e : spec_ins g w e = spec_ins g w' e.
+Proof. unfold spec_ins, valid_deps. rewrite spec_load_agree. reflexivity. Qed.
+
+Lemma newer_transfer x n : newer_than g w x n -> ~ X n -> newer_than g w' x n.
+Proof.
+  destruct Hag as [Hm _].
+  induction 1 as [n Hnz Hlt|n Hz Hlt|n e i Hz Hp Hph Hi Hn IH]; intros HnX.
+  - apply nt_file; rewrite <- (Hm n HnX); assumption.
+  - apply nt_missing; [rewrite <- (Hm n HnX)|]; assumption.
+  - apply (nt_phony g w' x n e i); [rewrite <- (Hm n HnX); exact Hz|exact Hp|exact Hph|exact Hi|].
+    apply IH. intros Hx. destruct (HX i Hx) as [_ [_ Hno]]. apply (Hno e).
+    unfold spec_ins. apply in_or_app. left; exact Hi.
+Qed.
+
+Lemma must_dirty_transfer n : must_dirty g w n -> must_dirty g w' n.
+Proof.
+  destruct Hag as [Hm [Hb _]].
+  induction 1 as [n Hp Hz|n e i Hp Hi Hd IH|n e o Hp Hph Hi0 Hv0 Ho Hz|n e o Hp Hph Ho Hr|n e Hp Hl].
+  - apply md_leaf; [exact Hp|]. rewrite <- (Hm n); [exact Hz|].
+    intros Hx. destruct (HX n Hx) as [_ [Hnz _]]. contradiction.
+  - apply (md_input g w' n e i); [exact Hp|rewrite <- spec_ins_agree; exact Hi|exact IH].
+  - apply (md_phony g w' n e o); try assumption. rewrite <- (Hm o (out_not_X e o Ho)). exact Hz.
+  - apply (md_self g w' n e o); try assumption.
+    pose proof (Hm o (out_not_X e o Ho)) as Hmo.
+    assert (HN : forall x, (exists i, In i (spec_ins g w e) /\ newer_than g w x i) ->
+                           (exists i, In i (spec_ins g w' e) /\ newer_than g w' x i)).
+    { intros x [i [Hi Hn]]. exists i. split; [rewrite <- spec_ins_agree; exact Hi|].
+      apply (newer_transfer x i Hn). intros Hx. destruct (HX i Hx) as [_ [_ Hno]]. apply (Hno e Hi). }
+    destruct Hr as [Hbase|Htime].
+    + left. unfold base_reason in *. rewrite <- Hmo, <- (Hb o). exact Hbase.
+    + right. unfold time_reason, used_restat in *. rewrite <- Hmo, <- (Hb o).
+      destruct Htime as [[A B]|B]; [left; split; [exact A|apply HN; exact B]|right].
+      destruct (w_blog w o) as [[h m]|]; [apply HN; exact B|exact B].
+  - apply (md_deps g w' n e); [exact Hp|rewrite <- spec_load_agree; exact Hl].
+Qed.
+End OrderOnly.
+
+Lemma worlds_agree_sym X w w' : worlds_agree_except X w w' -> worlds_agree_except X w' w.
+Proof.
+  intros [A [B [C D]]]. split; [intros n Hn; symmetry; apply A; exact Hn|].
+  split; [intros n; symmetry; apply B|]. split; [intros n; symmetry; apply C|intros e; symmetry; apply D].
+Qed.
+
+(* changing only mtimes of order-only sources changes no must_dirty verdict ... *)
+Theorem must_dirty_order_only_indep g w w' X :
+  (forall e o, In o (ei_outs (g_edge g e)) -> g_producer g o = Some e) ->
+  worlds_agree_except X w w' -> order_only_sources g w X -> order_only_sources g w' X ->
+  forall n, must_dirty g w n <-> must_dirty g w' n.
+Proof.
+  intros Hout Hag HX HX' n. split.
+  - apply (must_dirty_transfer g w w' X Hout Hag HX).
+  - apply (must_dirty_transfer g w' w X Hout (worlds_agree_sym X w w' Hag) HX').
+Qed.
+
+(* ... hence no dirty flag computed by the scan *)
+Theorem C03_order_only_alone_no_dirty g w w' X targets s p s' p' :
+  wf_spec g ->
+  worlds_agree_except X w w' -> order_only_sources g w X -> order_only_sources g w' X ->
+  scan g w targets = ScanOk s p -> scan g w' targets = ScanOk s' p' ->
+  forall n, n_known (st_node s n) = true -> n_known (st_node s' n) = true ->
+            ns_dirty (st_node s n) = ns_dirty (st_node s' n).
+Proof.
+  intros Hwf Hag HX HX' H H' n Hk Hk'.
+  destruct (scan_dirty_spec g w Hwf targets s p H n Hk) as [A _].
+  destruct (scan_dirty_spec g w' Hwf targets s' p' H' n Hk') as [A' _].
+  pose proof (must_dirty_order_only_indep g w w' X (proj1 Hwf) Hag HX HX' n) as Hiff.
+  destruct (ns_dirty (st_node s n)), (ns_dirty (st_node s' n)); try reflexivity.
+  - assert (false = true) by (apply A'; apply Hiff; apply A; reflexivity). congruence.
+  - assert (false = true) by (apply A; apply Hiff; apply A'; reflexivity). congruence.
+Qed.
+
+(* ---- (b) only the command line of generator rules changes *)
+Definition same_but_generator_hash (g g' : graph) : Prop :=
+  (forall n, g_producer g n = g_producer g' n) /\
+  (forall e, ei_ins (g_edge g e) = ei_ins (g_edge g' e) /\
+             ei_noo (g_edge g e) = ei_noo (g_edge g' e) /\
+             ei_outs (g_edge g e) = ei_outs (g_edge g' e) /\
+             ei_vals (g_edge g e) = ei_vals (g_edge g' e) /\
+             ei_phony (g_edge g e) = ei_phony (g_edge g' e) /\
+             ei_restat (g_edge g e) = ei_restat (g_edge g' e) /\
+             ei_generator (g_edge g e) = ei_generator (g_edge g' e) /\
+             ei_deps (g_edge g e) = ei_deps (g_edge g' e) /\
+             (ei_generator (g_edge g e) = false -> ei_hash (g_edge g e) = ei_hash (g_edge g' e))).
+
+Section GeneratorHash.
+Variables (g g' : graph) (w : world).
+Hypothesis Hs : same_but_generator_hash g g'.
+
+Lemma sbg_nonoo e : nonoo_ins g e = nonoo_ins g' e.
+Proof.
+  destruct (proj2 Hs e) as [A [B _]]. unfold nonoo_ins. rewrite A, B. reflexivity.
+Qed.
+Lemma sbg_spec_load e : spec_load g w e = spec_load g' w e.
+Proof.
+  destruct (proj2 Hs e) as [_ [_ [C [_ [_ [_ [_ [D _]]]]]]]]. unfold spec_load. rewrite C, D. reflexivity.
+Qed.
+Lemma sbg_spec_ins e : spec_ins g w e = spec_ins g' w e.
+Proof. unfold spec_ins, valid_deps. rewrite sbg_nonoo, sbg_spec_load. reflexivity. Qed.
+
+Lemma sbg_newer x n : newer_than g w x n -> newer_than g' w x n.
+Proof.
+  induction 1 as [n Hnz Hlt|n Hz Hlt|n e i Hz Hp Hph Hi Hn IH].
+  - apply nt_file; assumption.
+  - apply nt_missing; assumption.
+  - apply (nt_phony g' w x n e i); [exact Hz|rewrite <- (proj1 Hs n); exact Hp| | |exact IH].
+    + destruct (proj2 Hs e) as [_ [_ [_ [_ [P _]]]]]. rewrite <- P. exact Hph.
+    + rewrite <- sbg_nonoo. exact Hi.
+Qed.
+
+Lemma sbg_must_dirty n : must_dirty g w n -> must_dirty g' w n.
+Proof.
+  induction 1 as [n Hp Hz|n e i Hp Hi Hd IH|n e o Hp Hph Hi0 Hv0 Ho Hz|n e o Hp Hph Ho Hr|n e Hp Hl].
+  - apply md_leaf; [rewrite <- (proj1 Hs n); exact Hp|exact Hz].
+  - destruct (proj2 Hs e) as [A [B [C [D [P [R [G [K HH]]]]]]]].
+    apply (md_input g' w n e i); [rewrite <- (proj1 Hs n); exact Hp|rewrite <- sbg_spec_ins; exact Hi|exact IH].
+  - destruct (proj2 Hs e) as [A [B [C [D [P [R [G [K HH]]]]]]]].
+    apply (md_phony g' w n e o); [rewrite <- (proj1 Hs n); exact Hp|rewrite <- P; exact Hph|rewrite <- A; exact Hi0
+                                 |rewrite <- D; exact Hv0|rewrite <- C; exact Ho|exact Hz].
+  - destruct (proj2 Hs e) as [A [B [C [D [P [R [G [K HH]]]]]]]].
+    apply (md_self g' w n e o); [rewrite <- (proj1 Hs n); exact Hp|rewrite <- P; exact Hph|rewrite <- C; exact Ho|].
+    destruct Hr as [Hbase|Htime].
+    + left. unfold base_reason in *. rewrite <- G. destruct Hbase as [Hz|Hb]; [left; exact Hz|right].
+      destruct (w_blog w o) as [[h m]|]; [|exact Hb]. destruct Hb as [Hg Hne]. split; [exact Hg|].
+      rewrite <- (HH Hg). exact Hne.
+    + right. unfold time_reason, used_restat in *. rewrite <- R.
+      assert (HN : forall x, (exists i, In i (spec_ins g w e) /\ newer_than g w x i) ->
+                             (exists i, In i (spec_ins g' w e) /\ newer_than g' w x i)).
+      { intros x [i [Hi Hn]]. exists i. split; [rewrite <- sbg_spec_ins; exact Hi|apply sbg_newer; exact Hn]. }
+      destruct Htime as [[A1 B1]|B1]; [left; split; [exact A1|apply HN; exact B1]|right].
+      destruct (w_blog w o) as [[h m]|]; [apply HN; exact B1|exact B1].
+  - apply (md_deps g' w n e); [rewrite <- (proj1 Hs n); exact Hp|rewrite <- sbg_spec_load; exact Hl].
+Qed.
+End GeneratorHash.
+
+Lemma same_but_generator_hash_sym g g' : same_but_generator_hash g g' -> same_but_generator_hash g' g.
+Proof.
+  intros [A B]. split; [intros n; symmetry; apply A|].
+  intros e. destruct (B e) as [B1 [B2 [B3 [B4 [B5 [B6 [B7 [B8 B9]]]]]]]].
+  repeat split; try (symmetry; assumption).
+  intros Hg. symmetry. apply B9. rewrite B7. exact Hg.
+Qed.
+
+Theorem must_dirty_generator_hash_indep g g' w :
+  same_but_generator_hash g g' -> forall n, must_dirty g w n <-> must_dirty g' w n.
+Proof.
+  intros Hs n. split; [apply (sbg_must_dirty g g' w Hs)|].
+  apply (sbg_must_dirty g' g w (same_but_generator_hash_sym g g' Hs)).
+Qed.
+
+(* changing only the command line of generator rules changes no dirty flag *)
+Theorem C03_generator_cmdline_no_dirty g g' w targets s p s' p' :
+  wf_spec g -> wf_spec g' -> same_but_generator_hash g g' ->
+  scan g w targets = ScanOk s p -> scan g' w targets = ScanOk s' p' ->
+  forall n, n_known (st_node s n) = true -> n_known (st_node s' n) = true ->
+            ns_dirty (st_node s n) = ns_dirty (st_node s' n).
+Proof.
+  intros Hwf Hwf' Hs H H' n Hk Hk'.
+  destruct (scan_dirty_spec g w Hwf targets s p H n Hk) as [A _].
+  destruct (scan_dirty_spec g' w Hwf' targets s' p' H' n Hk') as [A' _].
+  pose proof (must_dirty_generator_hash_indep g g' w Hs n) as Hiff.
+  destruct (ns_dirty (st_node s n)), (ns_dirty (st_node s' n)); try reflexivity.
+  - assert (false = true) by (apply A'; apply Hiff; apply A; reflexivity). congruence.
+  - assert (false = true) by (apply A; apply Hiff; apply A'; reflexivity). congruence.
+Qed.
+
+(* ---- (c) C10: a recorded dep of a statement that is dirty for its own reason is not looked at *)
+(*   build hdr: gen hs                      (hdr = 0, obj = 1, hs = 2, src = 3)
+     build obj: cc src   (deps = gcc; the deps log says: obj read hdr, and the record is valid)
+   both hs and src were edited.  Requested: obj. *)
+Local Open Scope nat_scope.
+Module C10Witness.
+  Definition e0 := mkEdge [2] 0 0 [0] [] false false false DepsNone 7%N.
+  Definition e1 := mkEdge [3] 0 0 [1] [] false false false DepsLog 8%N.
+  Definition dummy := mkEdge [] 0 0 [] [] false false false DepsNone 0%N.
+  Definition g := mkGraph 2 (fun e => match e with 0 => e0 | 1 => e1 | _ => dummy end)
+                          (fun n => match n with 0 => Some 0 | 1 => Some 1 | _ => None end)
+                          (fun _ => false).
+  Definition w := mkWorld (fun n => match n with 0 => 5%Z | 1 => 6%Z | 2 => 20%Z | 3 => 21%Z | _ => 0%Z end)
+                          (fun n => match n with 0 => Some (7%N, 5%Z) | 1 => Some (8%N, 6%Z) | _ => None end)
+                          (fun n => match n with 1 => Some (6%Z, [0]) | _ => None end)
+                          (fun _ => DfMissing).
+
+  Lemma wf : wf_spec g.
+  Proof.
+    split; [|split].
+    - intros e o Ho. destruct e as [|[|e]]; cbn in Ho;
+        [destruct Ho as [<-|[]]; reflexivity|destruct Ho as [<-|[]]; reflexivity|destruct Ho].
+    - intros n e Hp. destruct n as [|[|n]]; cbn in Hp; inversion Hp; subst; cbn; left; reflexivity.
+    - intros e He. destruct e as [|[|e]]; cbn in *; try congruence. split; [reflexivity|lia].
+  Qed.
+
+  Lemma hdr_recorded_and_valid : valid_deps g w 1 = [0].
+  Proof. vm_compute. reflexivity. Qed.
+
+  Lemma hdr_must_be_remade : must_dirty g w 0.
+  Proof.
+    apply (md_self g w 0 0 0); [reflexivity|reflexivity|left; reflexivity|].
+    right. left. split; [reflexivity|]. exists 2. split; [left; reflexivity|].
+    apply nt_file; cbn; lia.
+  Qed.
+
+  (* obj is wanted, hdr's statement is neither visited nor in the plan *)
+  Lemma scanned :
+    match scan g w [1] with
+    | ScanOk s p => p_want p 1 = Some WantToStart /\ p_want p 0 = None /\
+                    es_mark (st_edge s 0) = VisitNone /\ es_ins (st_edge s 1) = [3] /\
+                    ns_dirty (st_node s 1) = true /\ n_known (st_node s 1) = true
+    | _ => False
+    end.
+  Proof. vm_compute. repeat split; reflexivity. Qed.
+End C10Witness.
+
+Definition C10_recorded_dep_built_full : Prop :=
+  forall g w targets s p,
+    wf_spec g -> scan g w targets = ScanOk s p ->
+    forall t e i e', In t targets -> g_producer g t = Some e ->
+                     In i (valid_deps g w e) -> g_producer g i = Some e' -> must_dirty g w i ->
+                     p_want p e' = Some WantToStart.
+
+Theorem C10_dirty_edge_deps_not_loaded_refuted : ~ C10_recorded_dep_built_full.
+Proof.
+  intros H. pose proof C10Witness.scanned as Hs.
+  destruct (scan C10Witness.g C10Witness.w [1]) as [c|m d|e| |s p] eqn:Hscan; try contradiction.
+  destruct Hs as [_ [Hw0 _]].
+  assert (Hx : p_want p 0 = Some WantToStart).
+  { apply (H C10Witness.g C10Witness.w [1] s p C10Witness.wf Hscan 1 1 0 0).
+    - left; reflexivity.
+    - reflexivity.
+    - rewrite C10Witness.hdr_recorded_and_valid. left; reflexivity.
+    - reflexivity.
+    - exact C10Witness.hdr_must_be_remade. }
+  congruence.
+Qed.
